@@ -26,6 +26,36 @@ TAG = {p: i for i, p in enumerate(PRIMS)}
 ALIASES = {'__CREATE_ACCOUNT__': 'CREATE_ACCOUNT', '__STEPS_TO_QUOTA__': 'STEPS_TO_QUOTA'}
 
 
+
+_CH = 10 ** 600
+
+
+def int_of(s: str) -> int:
+    """int(str) that does not depend on the interpreter's int<->str digit limit (a process-global setting)."""
+    s = s.strip()
+    neg = s.startswith('-')
+    if s[:1] in '+-':
+        s = s[1:]
+    if not s.isdigit():
+        raise ValueError(f'not an integer literal: {s[:40]!r}')
+    n = 0
+    for i in range(0, len(s), 600):
+        chunk = s[i:i + 600]
+        n = n * 10 ** len(chunk) + int(chunk)
+    return -n if neg else n
+
+
+def dec_of(n: int) -> str:
+    """str(int) independent of the interpreter's digit limit."""
+    if n < 0:
+        return '-' + dec_of(-n)
+    parts = []
+    while n >= _CH:
+        n, r = divmod(n, _CH)
+        parts.append(str(r).zfill(600))
+    parts.append(str(n))
+    return ''.join(reversed(parts))
+
 def enc_zint(v: int) -> bytes:
     a = abs(v)
     out = bytearray([(a & 0x3F) | (0x40 if v < 0 else 0)])
@@ -57,7 +87,7 @@ def encode(e, zint=enc_zint) -> bytes:
     if isinstance(e, list):
         return b'\x02' + _arr(b''.join(encode(x, zint) for x in e))
     if 'int' in e:
-        return b'\x00' + zint(int(e['int']))
+        return b'\x00' + zint(int_of(e['int']))
     if 'string' in e:
         return b'\x01' + _arr(e['string'].encode())
     if 'bytes' in e:
@@ -165,7 +195,7 @@ def decode(data: bytes, lenient=False):
     def node():
         t = u8()
         if t == 0:
-            return {'int': str(zint())}
+            return {'int': dec_of(zint())}
         if t == 1:
             try:
                 return {'string': arr().decode('utf-8', 'surrogateescape' if lenient else 'strict')}
@@ -201,7 +231,7 @@ def normalize(e):
     if isinstance(e, list):
         return [normalize(x) for x in e]
     if 'int' in e:
-        return {'int': str(int(e['int']))}
+        return {'int': dec_of(int_of(e['int']))}
     if 'string' in e:
         return {'string': e['string']}
     if 'bytes' in e:
